@@ -917,16 +917,29 @@ func runC12(w *World, r *Report) {
 	// ---- registered-closure
 	r.Rule("C12.decoders-match-envelope", "everything internal/serialization reads back is read by the library that writes the envelope and the map keys verbatim (the Marshal call of serialization.Marshal): every Unmarshal* call of the package goes to that library — a reader from another library silently rewrites what the writer passed through as raw bytes (invalid UTF-8 inside a struct key becomes U+FFFD, keys collapse). The one encoder call into another library (basic values) is the one guarded by C12.representable-or-error", 3)
 	{
-		var envelopeLib string
+		// the library that writes the envelope: what serialization.Marshal reaches outside the module — a static callee
+		// (sonic.Marshal) or a package-level object it goes through (sonic.ConfigDefault.NewEncoder(…).Encode)
+		envLibs := map[string]bool{}
 		instrs(w.Fn("internal/serialization", "Marshal"), func(in ssa.Instruction) {
 			if c, ok := in.(ssa.CallInstruction); ok {
-				if sc := staticCallee(c); sc != nil && sc.Pkg != nil && !w.inRepo(sc) && strings.HasPrefix(sc.Name(), "Marshal") {
-					envelopeLib = sc.Pkg.Pkg.Path()
+				if sc := staticCallee(c); sc != nil && sc.Pkg != nil && !w.inRepo(sc) && (strings.HasPrefix(sc.Name(), "Marshal") || strings.HasPrefix(sc.Name(), "Encode")) {
+					envLibs[sc.Pkg.Pkg.Path()] = true
+				}
+			}
+			for _, op := range in.Operands(nil) {
+				if g, ok := (*op).(*ssa.Global); ok && g.Pkg != nil && !strings.HasPrefix(g.Pkg.Pkg.Path(), modPath) {
+					if pth := g.Pkg.Pkg.Path(); strings.Contains(pth, "json") || strings.Contains(pth, "sonic") {
+						envLibs[pth] = true
+					}
 				}
 			}
 		})
-		if envelopeLib == "" {
-			undecidedf("C12.decoders-match-envelope: serialization.Marshal calls no external Marshal function")
+		var envelopeLib string
+		for k := range envLibs {
+			envelopeLib = k
+		}
+		if len(envLibs) != 1 {
+			undecidedf("C12.decoders-match-envelope: serialization.Marshal writes the envelope through %d libraries (%v)", len(envLibs), envLibs)
 		}
 		n := 0
 		for _, fn := range w.RepoFuncs("internal/serialization") {
